@@ -51,7 +51,7 @@ func (s *String) Incr(step int64) (int64, error) {
 	}
 	n += step
 	nn := strconv.FormatInt(n, 10)
-	s.V = unsafe.Slice(unsafe.StringData(nn), len(nn))
+	s.V = []byte(nn)
 	return n, nil
 }
 
@@ -69,7 +69,7 @@ func (s *String) Decr(step int64) (int64, error) {
 	}
 	n -= step
 	nn := strconv.FormatInt(n, 10)
-	s.V = unsafe.Slice(unsafe.StringData(nn), len(nn))
+	s.V = []byte(nn)
 	return n, nil
 }
 
@@ -87,7 +87,7 @@ func (s *String) IncrByFloat(step float64) (float64, error) {
 	}
 	n += step
 	nn := strconv.FormatFloat(n, 'f', -1, 64)
-	s.V = unsafe.Slice(unsafe.StringData(nn), len(nn))
+	s.V = []byte(nn)
 	return n, nil
 }
 
